@@ -310,7 +310,11 @@ def r3_growth(program, rep):
     LINK = ("elem", ("global", "Links"))
     hops = [x for x in stores(T) if x[4][0] == "tuple" and len(x[4]) == 3
             and x[4][1] == LINK]
-    ok = len(hops) == 1
+    if len(hops) != 1:
+        raise AnalysisError("a_star: the statement recording the hop taken "
+                            "to reach a neighbour was not found in the form "
+                            "analysed (visited[neighbour] = (link, node))")
+    ok = True
     N = NODE = VIS = None
     if ok:
         node, st, VIS, N, val = hops[0]
@@ -404,6 +408,9 @@ def r3_growth(program, rep):
             oks = True
     rep.check(oks, "C03-R3", inst, "the search stops only at a chip of the "
               "permitted target set", construct="A* termination", node=fn)
+
+
+def r3_copy(program, rep):
     # copy_and_disconnect_tree
     cp = program.get(NER + ":copy_and_disconnect_tree")
     C = Terms(cp)
@@ -784,7 +791,8 @@ def check(program, rep):
     program.module(NER)
     rep.guard("C03-R1", r1_leaves, program, rep)
     rep.guard("C03-R2", r2_repair, program, rep)
-    rep.guard("C03-R3", r3_growth, program, rep)
+    rep.guard(["C03-R3", "C03-R4"], r3_growth, program, rep)
+    rep.guard("C03-R3", r3_copy, program, rep)
     rep.guard("C03-R5", r5_reconnect, program, rep)
     rep.guard("C03-R6", r6_truncation, program, rep)
     rep.guard("C03-R7", r7_raises, program, rep)
